@@ -196,6 +196,22 @@ fn main() -> Result<()> {
         }
     }
 
+    // A source given as `dir/.` is merged into the destination
+    // itself, so its entries must not collide with another source
+    // either: the two would be written to the same place concurrently.
+    for (i, merged) in sources.iter().enumerate().filter(|(_, s)| names_contents(s)) {
+        for (j, other) in sources.iter().enumerate().filter(|(j, _)| *j != i) {
+            let collide = if names_contents(other) {
+                j > i && merged.read_dir()?.filter_map(|e| e.ok()).any(|e| other.join(e.file_name()).symlink_metadata().is_ok())
+            } else {
+                other.file_name().is_some_and(|name| merged.join(name).symlink_metadata().is_ok())
+            };
+            if collide {
+                return Err(XcpError::InvalidSource("Multiple sources map to the same destination.").into());
+            }
+        }
+    }
+
 
     // ========== Start copy ============
 
